@@ -105,7 +105,7 @@ class PolicyOracle:
                         pol = dec_policy_info(raw, 16 + off('xfrm_user_acquire', 'policy'))
                         acq.append(pol['index'])
         self.cur = {'node': node.name, 'acq': acq, 'snap': snap_node(node, timers=False) if node.state == 'running' and node.controller else None,
-                    'est_peers': {str(sa.peer_addr) for sa in node.ike_sas() if sa.state.name == 'ESTABLISHED'},
+                    'est_peers': {str(sa.peer_addr) for sa in node.ike_sas() if 10 <= int(sa.state) < 20},   # established, maybe busy
                     'any_peers': {str(sa.peer_addr) for sa in node.ike_sas()},
                     'sent0': len(self.wire.by_sender.get(node.name, [])), 'req0': node.kernel.req_no,
                     'others_readable': any(s.queue for s in node.udp.values()),
